@@ -122,13 +122,15 @@ def _sub_dirs(s, dirs, back=False):
     return s
 
 
-def materialise(doc, paths, dirs=None):
+def materialise(doc, paths, dirs=None, broken=None):
     doc = json.loads(json.dumps(doc))
     for sc in (doc.get("mcpServers") or {}).values():
         if not isinstance(sc, dict):
             continue
         if isinstance(sc.get("command"), str) and sc["command"].startswith("@W"):
             sc["command"] = paths[int(sc["command"][2:])]
+        elif isinstance(sc.get("command"), str) and sc["command"][:2] in ("@X", "@N") and broken is not None:
+            sc["command"] = broken[sc["command"]]
         if dirs and isinstance(sc.get("env"), dict):
             sc["env"] = {k: (_sub_dirs(v, dirs) if isinstance(v, str) else v) for k, v in sc["env"].items()}
     return doc
@@ -454,6 +456,19 @@ def run_case(case):
                         json.dump(case["witness_mode"], f)
                 wdirs[i] = d
                 paths[i] = p
+        # commands that CANNOT be spawned: `@X<i>` does not exist, `@N<i>` exists but is not executable
+        broken = {}
+        if isinstance(doc, dict):
+            for sc in (doc.get("mcpServers") or {}).values():
+                c_ = sc.get("command") if isinstance(sc, dict) else None
+                if isinstance(c_, str) and c_[:2] in ("@X", "@N") and c_ not in broken:
+                    bd = os.path.join(tmp, "broken" + c_[1:])
+                    os.makedirs(bd, exist_ok=True)
+                    broken[c_] = os.path.join(bd, "server")
+                    if c_.startswith("@N"):
+                        with open(broken[c_], "w") as f:
+                            f.write("#!/bin/sh\nexit 0\n")
+                        os.chmod(broken[c_], 0o644)
         if bare.get("host"):
             os.environ["PATH"] = ":".join([wdirs[i] for i in bare["host"]] + ([host_path] if host_path else []))
         for k, v in (case.get("host_env") or {}).items():
@@ -470,7 +485,7 @@ def run_case(case):
         kind = case["file"]
         if kind == "ok":
             style = case.get("style", "ascii")
-            real = materialise(doc, paths, wdirs)
+            real = materialise(doc, paths, wdirs, broken)
             if style == "pretty-utf8" and UTF8_FILES:
                 text = json.dumps(real, ensure_ascii=False, indent=2) + "\n"
             elif style == "crlf":
